@@ -85,6 +85,7 @@ type acCase struct {
 	Layout acLayout                       `json:"layout"`
 	Scan   []acScan                       `json:"scan"`
 	Stats  *acStats                       `json:"stats"`
+	Verif  *bool                          `json:"verifies"`
 	Idx    map[string]map[string][]uint64 `json:"idx"`
 	Ro     map[string]map[string]struct {
 		HasIx  []string `json:"has_ix"`
@@ -786,6 +787,28 @@ func runStatsCase(x *acCtx, c *acCase) {
 			}
 			st, ierr := rd.Inspect(validate)
 			_, serr := verifyingScan(file, opts...)
+			if c.Verif != nil && !*c.Verif {
+				// a block that does not (or cannot be shown to) hash to its CID: the scan fails, full validation
+				// fails with it, and inspection without validation reports the statistics as usual
+				if c.A.Npad > 0 && !zero {
+					continue
+				}
+				if serr == nil {
+					x.viol("inspect/scan-accepts-unverifiable", c, tag+": a verifying scan accepts a block whose hash cannot be checked", map[string]any{"mode": "stats"})
+				}
+				if validate {
+					if ierr == nil {
+						x.viol("inspect/iff-scan", c, fmt.Sprintf("%s: Inspect err=%v but verifying scan err=%v", tag, ierr, serr), map[string]any{"mode": "stats"})
+					}
+					continue
+				}
+				if ierr != nil {
+					x.viol("inspect/error-without-validation", c, tag+": "+ierr.Error(), map[string]any{"mode": "stats"})
+				} else if m := statsMismatch(c, st); m != "" {
+					x.viol("inspect/stats", c, tag+": "+m, map[string]any{"mode": "stats"})
+				}
+				continue
+			}
 			if (ierr == nil) != (serr == nil) {
 				x.viol("inspect/iff-scan", c, fmt.Sprintf("%s: Inspect err=%v but verifying scan err=%v", tag, ierr, serr), map[string]any{"mode": "stats"})
 				continue
@@ -1208,6 +1231,10 @@ func runArchiveReplay(args []string) int {
 			rep.violate("roundtrip/read/root.CarReader/lifecycle", m, map[string]any{"family": "reader-lifecycle"})
 		}
 		rep.eval("reader-lifecycle", true)
+		for _, v := range bigLoadCases() {
+			rep.violate("roundtrip/large-archive/"+v[0], fmt.Sprintf("archive of %d sections: %s", bigSections, v[1]), map[string]any{"family": "big-archive-load"})
+		}
+		rep.eval("big-archive-load", true)
 	}
 	if mode == "idx" {
 		// beyond the 2^16 boundary: one archive of 70 000 sections through every index kind
@@ -1249,6 +1276,9 @@ func runArchiveReplay(args []string) int {
 						runRoCase(x, &c)
 					case "stats":
 						runStatsCase(x, &c)
+						if c.Verif != nil && !*c.Verif {
+							break // the damage / limit variations below start from an archive that verifies
+						}
 						runStatsIndexDamage(x, &c)
 						runStatsIndexMoved(x, &c)
 						runStatsLimits(x, &c)
